@@ -1,6 +1,7 @@
 (* Extraction of the executable models to OCaml.  Directives used: exactly those of
    ExtrOcamlBasic and ExtrOCamlFloats (standard library), nothing else. *)
 From Coq Require Import Extraction ExtrOcamlBasic ExtrOCamlFloats.
-From PV Require Import Num model.Optimiser.
+From PV Require Import Num model.Optimiser model.Parse.
 Extraction Language OCaml.
-Extraction "extract/model.ml" NumF build optimise run run_states init advance accept.
+Extraction "extract/model.ml" NumF build optimise run run_states init advance accept
+  from_operations_l.
